@@ -114,13 +114,82 @@ type streamBeh struct {
 	Script []op   `json:"script"`
 }
 
-// tunnel-id strings: (own, same first 16 bytes but different, different inside the first 16 bytes)
+// idSet is the tunnel-id material of one behaviour: our id and three foreign ids, as the raw
+// 16-byte header fields the code works with, plus a printable description for the trace.
+//   same    : a different tunnel whose header field is byte-identical (ids differing beyond
+//             byte 16, or by trailing NULs) - the known 16-byte finding;
+//   diff    : differs in the first bytes;
+//   diffNul : agrees with ours up to the first 0x00 byte of the field and differs after it
+//             (for ids without a NUL: differs in the last byte only).
+type idSet struct {
+	own, same, diff, diffNul [16]byte
+	desc                     []string
+}
+
+func raw16(s string) (id [16]byte) { copy(id[:], s); return }
+
+// id classes: long  = client-generated printable ids longer than 16 bytes (truncated);
+// short = printable ids shorter than 16 bytes (zero padded); nulmid = binary ids with a NUL in
+// the middle; nulfirst = binary / UUID-style ids starting with NUL (the foreign one may be the
+// all-zero id of control-plane frames); zero = our id is the all-zero id.
+func makeIDs(idk string, salt int64) (idSet, error) {
+	var s idSet
+	rnd := fw.NewRand(salt ^ 0x1d5)
+	fs := func(x string) [16]byte { id, _ := crossnode.TunnelIDFromString(x); return id }
+	switch idk {
+	case "long":
+		// the shape the client generates: <proto>-tunnel-<unixnano>-<port> (mapping/base_utils.go)
+		nano := int64(1758900000000000000) + salt%1000000007
+		own := fmt.Sprintf("tcp-tunnel-%d-%d", nano, 8080)
+		same := fmt.Sprintf("tcp-tunnel-%d-%d", nano+1+salt%977, 9090)
+		diff := fmt.Sprintf("udp-tunnel-%d-%d", nano, 8080)
+		s.own, s.same, s.diff = fs(own), fs(same), fs(diff)
+		s.diffNul = s.own
+		s.diffNul[15] ^= 0x01
+		s.desc = []string{own, same, diff}
+	case "short":
+		own := fmt.Sprintf("t-%d", 100+salt%900)
+		s.own, s.same, s.diff, s.diffNul = fs(own), fs(own+"\x00"), fs(fmt.Sprintf("u-%d", 100+salt%900)), fs(own+"\x00x")
+		s.desc = []string{own, own + "\x00", own + "\x00x"}
+	case "nulmid":
+		head := fmt.Sprintf("tun-%02x", salt%251)
+		s.own, s.diffNul, s.diff = raw16(head+"\x00aaaaaaaaa"), raw16(head+"\x00bbbbbbbbb"), raw16("tux"+head[3:]+"\x00aaaaaaaaa")
+		s.same = s.own
+		s.desc = []string{head + "\x00aaaaaaaaa", head + "\x00bbbbbbbbb"}
+	case "nulfirst":
+		rnd.Read(s.own[:])
+		rnd.Read(s.diffNul[:])
+		rnd.Read(s.diff[:])
+		s.own[0], s.diffNul[0], s.diff[0] = 0, 0, 0x40|s.diff[0]&0x3f
+		s.own[1] |= 1
+		if salt%2 == 0 {
+			s.diffNul = [16]byte{} // the all-zero id used by HTTP / DNS / command frames
+		} else {
+			s.diffNul[1] = s.own[1] ^ 0x80
+		}
+		s.same = s.own
+		s.desc = []string{fmt.Sprintf("%x", s.own), fmt.Sprintf("%x", s.diffNul)}
+	case "zero":
+		rnd.Read(s.diffNul[:])
+		s.diffNul[0] = 0
+		s.diffNul[1] |= 1
+		s.diff = raw16("q-tunnel")
+		s.desc = []string{fmt.Sprintf("%x", s.own), fmt.Sprintf("%x", s.diffNul)}
+	default:
+		return s, fmt.Errorf("id class %q", idk)
+	}
+	if s.diff == s.own || s.diffNul == s.own || s.same != s.own {
+		return s, fmt.Errorf("id class %q: bad id set %x %x %x %x", idk, s.own, s.same, s.diff, s.diffNul)
+	}
+	return s, nil
+}
+
+// idStrings is kept for the forwarding behaviours (a printable tunnel id string).
 func idStrings(idk string, salt int64) (own, same16, diff string) {
 	if idk == "short" {
 		own = fmt.Sprintf("t-%d", 100+salt%900)
 		return own, own + "\x00", fmt.Sprintf("u-%d", 100+salt%900)
 	}
-	// the shape the client generates: <proto>-tunnel-<unixnano>-<port> (mapping/base_utils.go)
 	nano := int64(1758900000000000000) + salt%1000000007
 	own = fmt.Sprintf("tcp-tunnel-%d-%d", nano, 8080)
 	same16 = fmt.Sprintf("tcp-tunnel-%d-%d", nano+1+salt%977, 9090)
@@ -145,16 +214,11 @@ type run struct {
 }
 
 func driveStream(env *fw.Env, sb *streamBeh) *fw.Trace {
-	ownS, sameS, diffS := idStrings(sb.Idk, sb.Salt)
-	if ownS == sameS || len(ownS) == 0 {
-		return &fw.Trace{Status: fw.DriverError, Note: "id strings"}
+	ids, err := makeIDs(sb.Idk, sb.Salt)
+	if err != nil {
+		return &fw.Trace{Status: fw.DriverError, Note: err.Error()}
 	}
-	ownID, _ := crossnode.TunnelIDFromString(ownS)
-	sameID, _ := crossnode.TunnelIDFromString(sameS)
-	diffID, _ := crossnode.TunnelIDFromString(diffS)
-	if diffID == ownID {
-		return &fw.Trace{Status: fw.DriverError, Note: "diff id collides"}
-	}
+	ownID, sameID, diffID, diffNulID := ids.own, ids.same, ids.diff, ids.diffNul
 	ta, tb, err := tcpPair()
 	if err != nil {
 		return &fw.Trace{Status: fw.DriverError, Note: err.Error()}
@@ -191,9 +255,9 @@ func driveStream(env *fw.Env, sb *streamBeh) *fw.Trace {
 		plen := []int{1, 100, maxFrame}[rnd.Intn(3)]
 		in := injected{k: o.K}
 		switch o.K {
-		case "fd", "fds":
+		case "fd", "fds", "fdn":
 			in.ty, in.payload = "data", fill(0x80|idx, plen)
-		case "fe", "fes":
+		case "fe", "fes", "fen":
 			in.ty = "eof"
 		case "unk":
 			in.ty, in.payload = "unk", fill(0xc0|idx, plen)
@@ -203,6 +267,9 @@ func driveStream(env *fw.Env, sb *streamBeh) *fw.Trace {
 		in.idrel = "diff"
 		if o.K == "fds" || o.K == "fes" {
 			in.idrel = "same16"
+		}
+		if o.K == "fdn" || o.K == "fen" {
+			in.idrel = "diffnul"
 		}
 		if o.K == "unk" {
 			in.idrel = "own"
@@ -252,6 +319,8 @@ func driveStream(env *fw.Env, sb *streamBeh) *fw.Trace {
 				switch in.idrel {
 				case "same16":
 					id = sameID
+				case "diffnul":
+					id = diffNulID
 				case "own":
 					id = ownID
 				}
@@ -457,7 +526,7 @@ loop:
 
 	t := &fw.Trace{Status: fw.Realised}
 	t.Events = append(t.Events, fw.Event{"ev": "Cfg", "kind": "stream", "idk": sb.Idk, "rsz": sb.Rsz, "start": sb.Start,
-		"ids": []string{fmt.Sprintf("%q", ownS), fmt.Sprintf("%q", sameS), fmt.Sprintf("%q", diffS)}})
+		"ids": fmt.Sprintf("%q", ids.desc)})
 	t.Events = append(t.Events, wEvents...)
 	for _, r := range rr.runs {
 		t.Events = append(t.Events, fw.Event{"ev": "D", "src": r.src, "k": r.k, "off": r.off, "len": r.n, "eq": r.eq})
